@@ -195,6 +195,9 @@ def generate(repo):
     return "\n".join(out) + "\n"
 
 
+# what runner.check_kernels runs for a property whose propdef sets the flag
+STAGES = [("rangemap", "RangeMap.v", generate, "TieRangeMap.v")]
+
 if __name__ == "__main__":
     import sys
     print(generate(sys.argv[1] if len(sys.argv) > 1 else "/repo"))
